@@ -16,7 +16,7 @@
 (* [case, record index, reason] to `rej` (each reason once per case) and   *)
 (* checking goes on, so one rejection never hides the rest of the file.    *)
 (***************************************************************************)
-EXTENDS Lib, FDom, IOUtils
+EXTENDS Lib, FDom, LTermOps, IOUtils
 
 Obs == ndJsonDeserialize(IOEnv.OBS)
 
@@ -245,6 +245,20 @@ GroupReasons(rec) ==
          [] cur.gcheck = "union" ->
               One(IF BagEquiv(h[1].res, Cat(2), Eq) THEN "" ELSE "group_union_differs")
 
+(* C21: one LTerm container operation *)
+TermReasons(rec) ==
+  LET t == IF cur.t[1] = "none" THEN cur.t ELSE Norm(cur.t)
+      u == IF cur.u[1] = "none" THEN cur.u ELSE Norm(cur.u)
+      xs == [k \in 1..Len(cur.xs) |-> Norm(cur.xs[k])]
+      exp == TermExpected(cur.op, t, u, xs, cur.i)
+      r == rec.res
+  IN IF cur.op = "eq"
+     THEN FirstReason(<<
+            IF r[2] = exp[2] /\ r[3] = exp[3] THEN "" ELSE "term_eq_wrong",
+            IF r[5] THEN "" ELSE "term_eq_not_reflexive",
+            IF r[4] THEN "" ELSE "equal_terms_hash_differently" >>)
+     ELSE One(IF r[1] = exp[1] /\ (r[1] = "none" \/ r[2] = exp[2]) THEN "" ELSE "term_op_wrong")
+
 (* C18: one FiniteDomain operation *)
 DomReasons(rec) ==
   LET A == DAbs(cur.a)
@@ -290,6 +304,9 @@ Next ==
           /\ Note(One(BalanceReason(I)))
           /\ fin' = IF Rec.k = "final" THEN Append(fin, I) ELSE fin
           /\ UNCHANGED <<cur, S, prevI, posted, got, nok, hist>>
+     ELSE IF Rec.k = "termop"
+     THEN /\ Note(TermReasons(Rec))
+          /\ UNCHANGED <<cur, S, prevI, posted, got, fin, nok, hist>>
      ELSE IF Rec.k = "domop"
      THEN /\ Note(DomReasons(Rec))
           /\ UNCHANGED <<cur, S, prevI, posted, got, fin, nok, hist>>
